@@ -39,7 +39,7 @@ for (pid, stem), e in entries.items():
     missed = sorted(c for c, r in e["checks"].items() if r["exit"] == 0)
     meta = {
         "id": sid,
-        "breaks_property": pid,
+        "breaks_property": pid if pid.startswith("C") else "any of C01-C20 (area-based round; the author's description names the properties)",
         "author": "independent sub-agent given only the property text and a scratch worktree of /repo (nothing from /verif)",
         "description_by_author": desc,
         "confirmed_by_me": {
